@@ -229,6 +229,16 @@ impl<'tcx> Cx<'tcx> {
                 }
             }
         }
+        if nest < 2 {
+            if let ty::FnDef(did, fargs) = ty.kind() {
+                // parameter types of a fn item (e.g. the element type of `for_each(drop)`)
+                let sig = self.tcx.instantiate_bound_regions_with_erased(self.tcx.fn_sig(*did).instantiate(self.tcx, fargs).skip_norm_wip());
+                let parts: Vec<String> = sig.inputs().iter().filter(|t| !t.has_escaping_bound_vars()).map(|t| self.ty_json_d(*t, env, nest + 1)).collect();
+                if !parts.is_empty() {
+                    let _ = write!(o, ",\"fnin\":[{}]", parts.join(","));
+                }
+            }
+        }
         if ty.needs_drop(self.tcx, env) {
             let mut l: Vec<String> = Vec::new();
             self.local_dtors(ty, 0, &mut l);
@@ -864,13 +874,30 @@ impl<'tcx> Cx<'tcx> {
                             );
                         }
                     }
+                    // discriminant value of every variant of an enum (what `Rvalue::Discriminant` reads)
+                    let mut vs = String::new();
+                    if def.is_enum() {
+                        for (i, (vi, d)) in def.discriminants(tcx).enumerate() {
+                            if i > 0 {
+                                vs.push(',');
+                            }
+                            let _ = write!(
+                                vs,
+                                "{{\"name\":{},\"idx\":{},\"discr\":\"{}\"}}",
+                                esc(&def.variant(vi).name.to_string()),
+                                vi.as_usize(),
+                                d.val
+                            );
+                        }
+                    }
                     adts.push(format!(
-                        "{{\"path\":{},\"kind\":{},\"vis\":{},\"reachable\":{},\"fields\":[{}],{}}}",
+                        "{{\"path\":{},\"kind\":{},\"vis\":{},\"reachable\":{},\"fields\":[{}],\"variants\":[{}],{}}}",
                         esc(&self.path(did)),
                         esc(&format!("{:?}", tcx.def_kind(did))),
                         esc(&format!("{:?}", tcx.visibility(did))),
                         ev.is_reachable(id),
                         fs,
+                        vs,
                         self.span_json(tcx.def_span(did))
                     ));
                 }
